@@ -64,7 +64,7 @@ def generate(seed, tier):
                         "delay": r.choice((0.5, 3.0, 12.0))})
         else:
             ops.append({"op": "sleep", "s": r.choice((0.0, 0.5, 4.0, 9.99, 10.0, 10.01, 25.0))})
-    knobs = common.draw_knobs(r, stall_p=r.choice((0.0, 0.0005, 0.003)), stall_ns=[10_000_000, 2_000_000_000])
+    knobs = common.race_knobs(r, stall_p=r.choice((0.0, 0.0005, 0.003)), stall_ns=[10_000_000, 2_000_000_000])
     return {"ops": ops, "line_level": r.random() < 0.7, "prober": r.random() < 0.5, "knobs": knobs}
 
 
